@@ -6,6 +6,7 @@ from .. import core, harness
 from ..core import Explorer, SInt, SStr, Atom
 from ..harness import Item, fam, plain, ev
 from . import ipcommon as ipc
+from .ipcommon import mask_spec, in_networks_spec, inject, token, tok_value, mask_lemma
 
 INFO = dict(
     functions=["_BaseIpAnonymizer.anonymize", "_BaseIpAnonymizer.deanonymize", "_anonymize_bits", "_deanonymize_bits",
@@ -180,86 +181,6 @@ def warm_inverse(item, res):
     res["vacuity"] = "witnessed" if any(p.model is not None for p in paths) else "VACUOUS"
     if res["vacuity"] != "witnessed":
         raise core.EngineError("no feasible path")
-
-
-def mask_spec(x):
-    """independent specification of 'netmask- or wildcard-shaped': ones then zeros, or zeros then ones (32 bit)"""
-    consts = set()
-    for k in range(33):
-        consts.add((1 << k) - 1)
-        consts.add(0xFFFFFFFF ^ ((1 << k) - 1))
-    return z3.Or(*[x == z3.BitVecVal(c, 32) for c in sorted(consts)])
-
-
-def in_networks_spec(x, networks, W=32):
-    import ipaddress
-    conds = []
-    for n in networks or []:
-        net = ipaddress.ip_network(n)
-        L = net.prefixlen
-        if L == 0:
-            conds.append(z3.BoolVal(True))
-        else:
-            conds.append(z3.Extract(W - 1, W - L, x) == z3.BitVecVal(int(net.network_address) >> (W - L), L))
-    return z3.Or(*conds) if conds else z3.BoolVal(False)
-
-
-def inject(an, F, family, xbv):
-    """make `an.make_addr` return the already-parsed symbolic address (instance attribute shadows the classmethod)"""
-    W = ipc.width(family)
-    cls = F.ipaddress.IPv4Address if family == 4 else F.ipaddress.IPv6Address
-
-    def make_addr(token):
-        if isinstance(token, str):
-            return type(an).make_addr(token)
-        if not (isinstance(token, SStr) and len(token.cs) == 1 and isinstance(token.cs[0], Atom)):
-            raise core.EngineError("injected make_addr called with unexpected text")
-        return cls(SInt.unsigned(token.cs[0].e))
-    an.make_addr = make_addr
-
-
-def token(family, bv):
-    return SStr([Atom("ipv4" if family == 4 else "ipv6", bv)])
-
-
-def tok_value(t, W):
-    if isinstance(t, str):
-        import ipaddress
-        return z3.BitVecVal(int(ipaddress.ip_address(t)), W)
-    if isinstance(t, SStr) and len(t.cs) == 1 and isinstance(t.cs[0], Atom):
-        return t.cs[0].e
-    raise core.EngineError("_anonymize_match returned something that is not a single rendered address: %r" % (t,))
-
-
-def mask_lemma(res):
-    """Lemma (all 2^32 values): the real IpAnonymizer._is_mask(x) <=> the independent 66-constant specification.
-    Discharged by symbolic execution of the real method on an unconstrained 32-bit variable."""
-    x, sx = ipc.sym_addr("m", 32)
-    ex = Explorer(deadline=time.time() + 60)
-    bad = []
-
-    def h(ex_):
-        an = ipc.make(dict(prefixes=[], networks=None, B=0), 4)
-        r = an._is_mask(sx)
-        if not isinstance(r, bool):
-            raise core.EngineError("_is_mask did not return a bool")
-        res["finals"] += 1
-        m = ex_.model(mask_spec(x) != z3.BoolVal(r))
-        if m is None:
-            res["finals_unsat"] += 1
-        else:
-            bad.append(ev(m, x))
-        return r
-    paths = ex.explore(h)
-    harness.add_stats(res, ex)
-    if {p.result for p in paths if p.exc is None} != {True, False}:
-        bad.append("not both outcomes reachable")
-    return bad
-
-
-def real_mask_expr(an, bv):
-    """the real _is_mask applied to a 32-bit term, as a formula (captured comparison)"""
-    return core.EX.capture(lambda: an._is_mask(SInt.unsigned(bv)))
 
 
 def match_level(item, res):
